@@ -233,7 +233,7 @@ pub fn run(ctx: &mut Ctx) {
         ctx.inconclusive("extraction of the cfg(windows) items from /repo/src/popen.rs failed", J::Null);
         return;
     }
-    let maxlen: u32 = ctx.n(5, 6) as u32;
+    let maxlen: u32 = ctx.n(5, 7) as u32;
     let n1 = count_upto(maxlen);
     ctx.max("exhaustive_single_len", maxlen as i64);
     // every string up to maxlen as the only argument, and as a middle argument
@@ -266,7 +266,7 @@ pub fn run(ctx: &mut Ctx) {
         }
     });
     // random longer vectors
-    let nr = ctx.n(200_000, 1_000_000);
+    let nr = ctx.n(200_000, 5_000_000);
     ctx.family("random", nr, |ctx, rng, _i| {
         let n = rng.range(0, 8);
         let mut v = vec!["prog".to_string()];
